@@ -50,6 +50,16 @@ def real_env(key):
                           'os': realh5.os_mod}
     elif key == 'bounds':
         env.update(extra)
+        import numpy
+
+        class _NP(object):
+            """numpy with the generator constructors of the harness world
+            (worker generators must be the stub streams in a replay)"""
+            random = world._RandomNS()
+
+            def __getattr__(self, name):
+                return getattr(numpy, name)
+        env['nautilus'] = {'np': _NP()}
     return env
 
 
